@@ -2,6 +2,7 @@
      hio.base.tyming.Tymer          (src/hio/base/tyming.py:179-279)  virtual tyme
      hio.help.timing.Timer          (src/hio/help/timing.py:21-103)   wall clock
      hio.help.timing.MonoTimer      (src/hio/help/timing.py:107-188)  wall clock, retrograde handling
+     hio.help.timing.AsyncTimer     (src/hio/help/timing.py:191-274)  Timer over the event-loop clock
    generic in a [Time] instance (Base/Time.v): theorems are proved for every
    instance or under [TimeLaws] (discharged by Z); the correspondence runs the
    binary64 instance bit for bit against the real classes.
@@ -125,6 +126,16 @@ Definition w_init (c : clock) (dur : T) (start : option T) : timer * clock :=
   let (st, c1) := start_or_tick start c in
   let s0 := {| w_start := st; w_stop := tadd st dur |} in
   let '(s, c2, _) := w_begin s0 c1 (Some dur) start in (s, c2).
+
+(* AsyncTimer(duration, start): a textual copy of Timer over the event-loop clock [c]
+   (asyncio.get_event_loop().time()), except that the constructor takes its
+   provisional _start from the WALL clock time.time() before start() re-reads the
+   loop clock; the explicit duration passed to start() makes the wall reading
+   irrelevant.  All other ops are Timer's over [c]. *)
+Definition a_init (wall : T) (c : clock) (dur : T) (start : option T) : timer * clock :=
+  let st := match start with Some x => x | None => wall end in
+  let s0 := {| w_start := st; w_stop := tadd st dur |} in
+  let '(s, c2, _) := w_begin s0 c (Some dur) start in (s, c2).
 
 Definition w_read (s : timer) (c : clock) (k : rd) : clock * res val :=
   match k with
@@ -252,7 +263,9 @@ Inductive case :=
 | CW (clk : list fl) (dur : fl) (start : option fl) (ops : list (wop fl))
      (snap0 : wsnap) (obs : list (res (val fl) * wsnap)) (unread : N)
 | CM (clk : list fl) (dur : fl) (start : option fl) (retro : bool) (ops : list (mop fl))
-     (snap0 : msnap) (obs : list (res (val fl) * msnap)) (unread : N).
+     (snap0 : msnap) (obs : list (res (val fl) * msnap)) (unread : N)
+| CA (wall : fl) (clk : list fl) (dur : fl) (start : option fl) (ops : list (wop fl))
+     (snap0 : wsnap) (obs : list (res (val fl) * wsnap)) (unread : N).
 
 Definition ysnap_eqb (s : tymer fl) (o : ysnap) : bool :=
   option_eqb float_same (y_start s) (fst o) && float_same (y_stop s) (snd o).
@@ -285,6 +298,10 @@ Definition check_case (c : case) : bool :=
       let (s, c1) := m_init clk dur start retro in
       let (l, c2) := m_run s c1 ops in
       msnap_eqb s snap0 && list_eqb2 (obs_eqb msnap_eqb) l obs && N.eqb (N.of_nat (length c2)) unread
+  | CA wall clk dur start ops snap0 obs unread =>
+      let (s, c1) := a_init wall clk dur start in
+      let (l, c2) := w_run s c1 ops in
+      wsnap_eqb s snap0 && list_eqb2 (obs_eqb wsnap_eqb) l obs && N.eqb (N.of_nat (length c2)) unread
   end.
 
 (* what the model computes, for diagnosis of a disagreement *)
@@ -293,6 +310,7 @@ Definition model_obs (c : case) : list (res (val fl)) :=
   | CY now dur start ops _ _ => map fst (y_run (y_init now dur start) ops)
   | CW clk dur start ops _ _ _ => let (s, c1) := w_init clk dur start in map fst (fst (w_run s c1 ops))
   | CM clk dur start retro ops _ _ _ => let (s, c1) := m_init clk dur start retro in map fst (fst (m_run s c1 ops))
+  | CA wall clk dur start ops _ _ _ => let (s, c1) := a_init wall clk dur start in map fst (fst (w_run s c1 ops))
   end.
 
 (* ------------------------------------------------------------------ branch classifier *)
@@ -362,7 +380,7 @@ Fixpoint m_branches (s : mono fl) (c : clock fl) (ops : list (mop fl)) : list na
   | o :: r => let '(s', c', _) := m_step s c o in m_branch s c o ++ m_branches s' c' r
   end.
 
-Definition n_branches : nat := 33.
+Definition n_branches : nat := 35.
 
 Definition case_branches (c : case) : list nat :=
   match c with
@@ -374,4 +392,7 @@ Definition case_branches (c : case) : list nat :=
   | CM clk dur start retro ops _ _ _ =>
       let (s, c1) := m_init clk dur start retro in
       (if is_some start then 24 else 25) :: m_branches s c1 ops
+  | CA wall clk dur start ops _ _ _ =>
+      let (s, c1) := a_init wall clk dur start in
+      (if is_some start then 33 else 34) :: w_branches s c1 ops
   end.
